@@ -34,6 +34,7 @@ PKGS = {
     "encoding/osm": ["C18"],
     "route": ["C19"],
 }
+BY_PROP = {}  # (pkg, file, func) -> properties whose check goes undecided when the function is opaque
 GUARD = 'if geomOpaque { panic("geom: opaque") }'
 ENV = dict(os.environ, GOFLAGS="", GOPROXY="off", GOSUMDB="off", GOTOOLCHAIN="local")
 ENV.pop("GOWORK", None)
@@ -85,6 +86,7 @@ def variant(pkgdir, fn, idx, name):
         if r.returncode != 0:
             return (pkgdir, fn, name, "skip", [r.stderr.strip().splitlines()[-1][:160] if r.stderr.strip() else "build"])
         bad, und = [], 0
+        by_prop = {}
         for p in PKGS[pkgdir]:
             env = dict(os.environ, GEOM_REPO=tmp, VERIF_DIR=V)
             r = subprocess.run([BIN, "check", "-prop", p, "-tier", "quick", "-no-evidence"], env=env, capture_output=True, text=True)
@@ -93,6 +95,8 @@ def variant(pkgdir, fn, idx, name):
                     bad.append(p + " " + ln.strip()[:420])
                 elif re.match(r"\s+UNDECIDED", ln):
                     und += 1
+                    by_prop[p] = by_prop.get(p, 0) + 1
+        BY_PROP[(pkgdir, fn, name)] = sorted(by_prop)
         return (pkgdir, fn, name, "VIOLATED" if bad else ("undecided" if und else "untouched"), bad)
     finally:
         shutil.rmtree(tmp, ignore_errors=True)
@@ -124,7 +128,8 @@ def main():
             elif verdict == "skip":
                 print(f"skip      {pkgdir}/{fn} {name}: {bad[0]}", flush=True)
     print(json.dumps(counts, sort_keys=True))
-    res = {"counts": counts, "offenders": [{"pkg": p, "file": f, "func": n, "lines": b} for p, f, n, b in offenders]}
+    res = {"counts": counts, "offenders": [{"pkg": p, "file": f, "func": n, "lines": b} for p, f, n, b in offenders],
+           "on_model_path_of": [{"pkg": k[0], "file": k[1], "func": k[2], "props": v} for k, v in sorted(BY_PROP.items()) if v]}
     if only is not None:
         res["previous_offenders"] = [{"pkg": p, "file": f, "func": n} for p, f, n in sorted(only)]
     json.dump(res, open(os.path.join(V, "mutants", "OPACITY_RESULTS.json"), "w"), indent=1)
